@@ -212,7 +212,11 @@ func (p *LiteralPolicy) IsSmallInt(c constant.Value) bool {
 	}
 	val, exact := constant.Int64Val(c)
 	if !exact {
-		return false
+		// The constant does not fit an int64 (a uint64 above MaxInt64). A range that spans all of
+		// int64 means "no limit" (KeepAllLiteralsPolicy): such a constant is kept like any other,
+		// otherwise x + 0x8000000000000001 and x + 0x8000000000000002 share a fingerprint even when
+		// all literals are kept. Under any narrower range it is outside.
+		return p.SmallIntMin == math.MinInt64 && p.SmallIntMax == math.MaxInt64
 	}
 	return val >= p.SmallIntMin && val <= p.SmallIntMax
 }
